@@ -6,8 +6,8 @@
    AEAD (AES-GCM) and Base64 are uninterpreted: a sealed box opens exactly under the key and
    the iv it was sealed with and only if no ciphertext / tag bit changed.
 
-   A case = [ks (key size), wrongkey, mut (what was done to the hostname), shape (of the
-   record)].  Expected is the statement; Read walks the stages of a decoder.  TLC checks
+   A case = [ks (key size), keykind (what the key bytes look like), wrongkey, mut (what was
+   done to the hostname), shape (of the record)].  Expected is the statement; Read walks the stages of a decoder.  TLC checks
    that they agree on every case (and that a decoder without the authenticity stage does
    not), and exports the cases; the harness builds each with its own Floodgate-style
    encoder over crypto/aes + cipher.NewGCM and gives it to the real ReadHostname. *)
@@ -16,6 +16,9 @@ EXTENDS Integers, Sequences, FiniteSets, TLC, Json
 CONSTANTS NoAuth      \* TRUE: a broken decoder that skips the AEAD check (non-vacuity)
 
 KeySizes == {16, 24, 32}
+\* the shared key is raw bytes: random ones, bytes that all happen to be Base64 alphabet
+\* characters, and such text ending in "==" (it must still be used as it is)
+KeyKinds == {"random", "b64text", "b64pad"}
 \* what happened to a correctly built hostname
 Muts == {"none", "port",                          \* untouched / ":25565" appended
          "header", "iv", "splitter", "ct", "tag", \* one byte changed in that part
@@ -26,7 +29,7 @@ Muts == {"none", "port",                          \* untouched / ":25565" append
 \* the record inside
 Shapes == {"ok", "unicode", "f11", "f13", "nouser", "xuid0", "xuidbad", "osbad", "os99"}
 
-Cases == [ks : KeySizes, wrongkey : BOOLEAN, mut : Muts, shape : Shapes]
+Cases == [ks : KeySizes, keykind : KeyKinds, wrongkey : BOOLEAN, mut : Muts, shape : Shapes]
 
 \* the statement: authentic, unaltered data decodes to its fields; data under another key or
 \* altered anywhere is rejected; records Floodgate itself would not produce are left open
